@@ -301,9 +301,15 @@ def shard(rec, idx, nshards, seed, tier):
     k = 60 if tier == 'quick' else 400
     sample = det_pool[:k]
     if sample:
-        other = _other_process([t[0] for t in sample])
+        # two fresh processes that compile the same list in the same order (equal history) and
+        # differ only in PYTHONHASHSEED, as two compiler workers of one server do
+        first = _other_process([t[0] for t in sample], '54321')
+        other = _other_process([t[0] for t in sample], '12345')
         rec.extra['cross_process_recompiled'] = rec.extra.get('cross_process_recompiled', 0) + len(sample)
-        for (text, fp, fp_loose, fp_bag), fps in zip(sample, other):
+        for (text, _fp, _fpl, _fpb), fps1, fps in zip(sample, first, other):
+            if not fps1:
+                continue
+            fp, fp_loose, fp_bag = fps1
             fp2 = fps[0] if fps else None
             if fp2 is not None and fp != fp2 and fp_loose == fps[1]:
                 rec.violation('nondeterministic:transient-id-in-sql', dict(text=text, features=[]),
@@ -323,9 +329,9 @@ def shard(rec, idx, nshards, seed, tier):
                               f'`{text}`: sql/descriptors differ between two processes with different PYTHONHASHSEED')
 
 
-def _other_process(texts):
+def _other_process(texts, hashseed='12345'):
     envv = dict(os.environ)
-    envv['PYTHONHASHSEED'] = '12345' if envv.get('PYTHONHASHSEED') != '12345' else '54321'
+    envv['PYTHONHASHSEED'] = hashseed
     p = subprocess.run([sys.executable, '-m', 'vp_harness.props.c13', '--fingerprints'],
                        input=json.dumps(texts).encode(), stdout=subprocess.PIPE, stderr=subprocess.PIPE,
                        env=envv, cwd=str(core.VERIF))
@@ -339,8 +345,9 @@ def replay(case):
     viol, info = run_case(case)
     viol = [v for v in viol if v[0] not in case.get('ignore_sigs', ())]
     if not viol and case.get('xproc') and info.get('status') == 'ok':
-        fp2 = (_other_process([case['text']])[0] or [None])[0]
-        if fp2 != info['fp']:
+        fp1 = (_other_process([case['text']], '54321')[0] or [None])[0]
+        fp2 = (_other_process([case['text']], '12345')[0] or [None])[0]
+        if fp2 != fp1:
             return 'nondeterministic:cross-process: fingerprints differ between processes'
     return '; '.join(f'{s}: {d}' for s, d in viol[:2]) or None
 
